@@ -45,8 +45,8 @@ func newLexicon(ops []oper.Operator) lexicon {
 		l.addOper(op.Kind)
 	}
 
-	l.addRule(str(token.TRUE))  // true
-	l.addRule(str(token.FALSE)) // false
+	l.addRule(keyword(token.TRUE))  // true
+	l.addRule(keyword(token.FALSE)) // false
 
 	// 移除数字前的 [+-]?, [+-]? 被处理成一元操作符, 实际上变成没有负数字面量, 语义不变
 	l.addRule(regex(token.NUM, "(?:0|[1-9][0-9]*)(?:[.][0-9]+)+(?:[eE][-+]?[0-9]+)?")) // float
